@@ -208,20 +208,19 @@ theorem countP_set_eq (p : α → Bool) (l : List α) (i : Nat) (a b : α) (h : 
       simp only [List.set_cons_succ, List.countP_cons]
       omega
 
-/-- What holds under every schedule for the Race collector on a channel of any capacity: the log is the
-responses of the members that have passed their send; it never runs ahead of the collector by more than
-the capacity (one, for an unbuffered channel: the rendezvous in flight); Race receives at most once. -/
-structure RaceRoom (c : Config Unit Single) : Prop where
+/-- What holds under every schedule, for every collector, on a channel of any capacity: the log is the
+responses of the members that have passed their send, and it never runs ahead of the collector by more
+than the capacity (one, for an unbuffered channel: the rendezvous in flight). -/
+structure Room (c : Config σ ρ) : Prop where
   histLen : c.hist.length = c.members.countP MPc.hasSent
   room : c.hist.length ≤ c.taken + max c.cap 1
-  takenOK : (c.cons.isIdle = true → c.taken = 0) ∧ c.taken ≤ 1
 
-theorem raceRoom_init (behs : List Beh) (cap : Nat) : RaceRoom (Config.init race behs cap) := by
-  refine ⟨?_, by simp [Config.init], by simp [Config.init]⟩
+theorem room_init (C : Consumer σ ρ) (behs : List Beh) (cap : Nat) : Room (Config.init C behs cap) := by
+  refine ⟨?_, by simp [Config.init]⟩
   simp [Config.init, List.countP_replicate, MPc.hasSent]
 
-theorem raceRoom_step (c c' : Config Unit Single) (t : Tid) (h : RaceRoom c)
-    (hs : step race c t = some c') : RaceRoom c' := by
+theorem room_step (C : Consumer σ ρ) (c c' : Config σ ρ) (t : Tid) (h : Room c)
+    (hs : step C c t = some c') : Room c' := by
   cases t with
   | member i =>
     simp only [step] at hs
@@ -231,14 +230,14 @@ theorem raceRoom_step (c c' : Config Unit Single) (t : Tid) (h : RaceRoom c)
       injection hs with hs; subst hs
       have := countP_set_eq MPc.hasSent c.members i .start (.ran (b.respond c.cancelled)) hm
       simp only [MPc.hasSent] at this
-      exact ⟨by simp only; rw [h.histLen]; simpa using this.symm, h.room, h.takenOK⟩
+      exact ⟨by simp only; rw [h.histLen]; simpa using this.symm, h.room⟩
     · rename_i r hm
       split at hs
       · rename_i hroom
         injection hs with hs; subst hs
         have := countP_set_eq MPc.hasSent c.members i (.ran r) (.sent r) hm
         simp only [MPc.hasSent] at this
-        refine ⟨?_, ?_, h.takenOK⟩
+        refine ⟨?_, ?_⟩
         · simp only [List.length_append, List.length_cons, List.length_nil]
           rw [h.histLen]; simpa using this.symm
         · simp only [List.length_append, List.length_cons, List.length_nil]
@@ -251,53 +250,120 @@ theorem raceRoom_step (c c' : Config Unit Single) (t : Tid) (h : RaceRoom c)
       injection hs with hs; subst hs
       have := countP_set_eq MPc.hasSent c.members i (.sent r) (.done r) hm
       simp only [MPc.hasSent] at this
-      exact ⟨by simp only; rw [h.histLen]; simpa using this.symm, h.room, h.takenOK⟩
+      exact ⟨by simp only; rw [h.histLen]; simpa using this.symm, h.room⟩
     · cases hs
   | closer =>
     simp only [step, stepCloser] at hs
     split at hs
     · split at hs
-      · injection hs with hs; subst hs; exact ⟨h.histLen, h.room, h.takenOK⟩
+      · injection hs with hs; subst hs; exact ⟨h.histLen, h.room⟩
       · cases hs
-    · injection hs with hs; subst hs; exact ⟨h.histLen, h.room, h.takenOK⟩
+    · injection hs with hs; subst hs; exact ⟨h.histLen, h.room⟩
     · cases hs
   | consumer =>
     simp only [step, stepConsumer] at hs
     split at hs
-    · rename_i s hcs
-      have h0 : c.taken = 0 := h.takenOK.1 (by simp [hcs, ConsPc.isIdle])
-      split at hs
+    · split at hs
       · injection hs with hs; subst hs
-        refine ⟨h.histLen, ?_, ?_⟩
-        · have := h.room; simp only; omega
-        · simp [ConsPc.isIdle, h0]
+        refine ⟨h.histLen, ?_⟩
+        have := h.room; simp only; omega
       · split at hs
-        · injection hs with hs; subst hs
-          refine ⟨h.histLen, h.room, ?_⟩
-          simp [ConsPc.isIdle, h0]
+        · injection hs with hs; subst hs; exact ⟨h.histLen, h.room⟩
         · cases hs
-    · rename_i s r hcs
-      simp only [race] at hs
-      injection hs with hs; subst hs
-      refine ⟨h.histLen, h.room, ?_⟩
-      simp [ConsPc.isIdle, h.takenOK.2]
+    · split at hs
+      · injection hs with hs; subst hs; exact ⟨h.histLen, h.room⟩
+      · injection hs with hs; subst hs; exact ⟨h.histLen, h.room⟩
     · cases hs
   | env =>
     simp only [step] at hs
     injection hs with hs; subst hs
-    exact ⟨h.histLen, h.room, h.takenOK⟩
+    exact ⟨h.histLen, h.room⟩
 
-theorem raceRoom_exec (sched : List Tid) (c : Config Unit Single) (h : RaceRoom c) :
-    RaceRoom (exec race c sched) := by
+theorem room_exec (C : Consumer σ ρ) (sched : List Tid) (c : Config σ ρ) (h : Room c) :
+    Room (exec C c sched) := by
   induction sched generalizing c with
   | nil => exact h
   | cons t ts ih =>
-    show RaceRoom (exec race (stepD race c t) ts)
+    show Room (exec C (stepD C c t) ts)
+    apply ih
+    unfold stepD
+    cases hs : step C c t with
+    | none => exact h
+    | some c' => exact room_step C c c' t h hs
+
+/-- Race receives at most once. -/
+def RaceTaken (c : Config Unit Single) : Prop := (c.cons.isIdle = true → c.taken = 0) ∧ c.taken ≤ 1
+
+theorem raceTaken_step (c c' : Config Unit Single) (t : Tid) (h : RaceTaken c)
+    (hs : step race c t = some c') : RaceTaken c' := by
+  cases t with
+  | member i =>
+    simp only [step] at hs
+    have hk := member_keeps c c' i hs
+    unfold RaceTaken; rw [hk.1, hk.2.1]; exact h
+  | closer =>
+    simp only [step] at hs
+    have hk := closer_keeps c c' hs
+    unfold RaceTaken; rw [hk.1, hk.2.1]; exact h
+  | consumer =>
+    simp only [step, stepConsumer] at hs
+    split at hs
+    · rename_i s hcs
+      have h0 : c.taken = 0 := h.1 (by simp [hcs, ConsPc.isIdle])
+      split at hs
+      · injection hs with hs; subst hs
+        simp [RaceTaken, ConsPc.isIdle, h0]
+      · split at hs
+        · injection hs with hs; subst hs
+          simp [RaceTaken, ConsPc.isIdle, h0]
+        · cases hs
+    · rename_i s r hcs
+      simp only [race] at hs
+      injection hs with hs; subst hs
+      simp [RaceTaken, ConsPc.isIdle, h.2]
+    · cases hs
+  | env =>
+    simp only [step] at hs
+    injection hs with hs; subst hs
+    exact h
+
+theorem raceTaken_exec (sched : List Tid) (c : Config Unit Single) (h : RaceTaken c) :
+    RaceTaken (exec race c sched) := by
+  induction sched generalizing c with
+  | nil => exact h
+  | cons t ts ih =>
+    show RaceTaken (exec race (stepD race c t) ts)
     apply ih
     unfold stepD
     cases hs : step race c t with
     | none => exact h
-    | some c' => exact raceRoom_step c c' t h hs
+    | some c' => exact raceTaken_step c c' t h hs
+
+/-- Once the collector has returned it never receives again: `taken` and its result are frozen. -/
+theorem returned_frozen (C : Consumer σ ρ) (more : List Tid) (c : Config σ ρ) (h : c.cons.isReturned = true) :
+    (exec C c more).taken = c.taken ∧ (exec C c more).cons = c.cons := by
+  induction more generalizing c with
+  | nil => exact ⟨rfl, rfl⟩
+  | cons t ts ih =>
+    show (exec C (stepD C c t) ts).taken = c.taken ∧ (exec C (stepD C c t) ts).cons = c.cons
+    have hk : (stepD C c t).taken = c.taken ∧ (stepD C c t).cons = c.cons := by
+      unfold stepD
+      cases hs : step C c t with
+      | none => exact ⟨rfl, rfl⟩
+      | some c' =>
+        cases t with
+        | member i => simp only [step] at hs; have := member_keeps c c' i hs; exact ⟨this.2.1, this.1⟩
+        | closer => simp only [step] at hs; have := closer_keeps c c' hs; exact ⟨this.2.1, this.1⟩
+        | consumer =>
+          simp only [step, stepConsumer] at hs
+          cases hc : c.cons with
+          | idle s => simp [hc, ConsPc.isReturned] at h
+          | got s r => simp [hc, ConsPc.isReturned] at h
+          | returned x b => simp [hc] at hs
+        | env => simp only [step] at hs; injection hs with hs; subst hs; exact ⟨rfl, rfl⟩
+    have := ih (stepD C c t) (by rw [hk.2]; exact h)
+    rw [this.1, this.2, hk.1, hk.2]
+    exact ⟨rfl, rfl⟩
 
 theorem countP_isDone_le_hasSent (l : List MPc) : l.countP MPc.isDone ≤ l.countP MPc.hasSent := by
   induction l with
